@@ -8,9 +8,13 @@ import (
 	"go/ast"
 	"go/parser"
 	"go/token"
+	"go/types"
 	"regexp"
+	"sort"
 	"strings"
 	"text/template/parse"
+
+	"golang.org/x/tools/go/packages"
 )
 
 func init() {
@@ -276,11 +280,13 @@ func checkC08(ctx *Ctx, r *Report) {
 	c08WholesaleLeafOnly(ctx, r)
 	c09OperatorTable(ctx, r)
 	c09BoundAgreement(ctx, r)
+	inProgressRestored(ctx, r, []string{"internal/jennies/golang/validation.go"}, 1)
+	c01SiblingReplacements(ctx, r)
 }
 
 func checkC13(ctx *Ctx, r *Report) {
 	r.Explanation = "Generator-side necessary conditions for the generated Equals, decided on the parsed template: the recursive equality template reaches every depth (array and map value types, nullable values with a nil-ness comparison, every field of inline structs without any filter, references to structs through the referee's Equals), every leaf-comparing branch emits `return false`, collections compare their lengths, and the dispatch ends in an uncommented sentinel; the equality method is generated for every struct object when the option is on."
-	r.NotCovered = "reflexivity/symmetry/transitivity and equality ⇔ JSON equality on concrete values (e.g. the emitted map branch compares self[k] with other[k] without a presence test); these need generated code to run."
+	r.NotCovered = "reflexivity/symmetry/transitivity and equality ⇔ JSON equality on concrete values; these need generated code to run."
 	r.Exhaustive = true
 	ts, err := loadTemplates(ctx, "golang")
 	if err != nil {
@@ -305,6 +311,7 @@ func checkC13(ctx *Ctx, r *Report) {
 		}
 	}
 	c13NilSymmetry(ctx, r, ts, ifChain(top))
+	c13OperandSymmetry(ctx, r, ts, ifChain(top))
 	for i, b := range ifChain(top) {
 		if b.cond == nil {
 			continue
@@ -811,4 +818,167 @@ func c08WholesaleLeafOnly(ctx *Ctx, r *Report) {
 	}
 	r.Count("wholesale-decoding helpers", n)
 	r.Floor("wholesale-decoding helpers", 2)
+}
+
+// c13OperandSymmetry: every recursive call of the equality template hands down two operand expressions; the one for
+// `other` must be the one for `self` with SelfName replaced by OtherName (variables resolved through their
+// declarations). A copy-paste that builds the second operand from SelfName makes the emitted code compare a value with
+// itself: differing values compare equal. The map branch must also establish that the key exists on the other side:
+// indexing a Go map with a missing key yields the zero value, which compares equal to a present zero.
+func c13OperandSymmetry(ctx *Ctx, r *Report, ts *tmplSet, branches []tmplBranch) {
+	n := 0
+	swap := func(x string) string {
+		return strings.ReplaceAll(x, ".SelfName", ".OtherName")
+	}
+	for i, b := range branches {
+		for j, args := range recursiveCalls(b.body, recEquality.define) {
+			self, other := args["SelfName"], args["OtherName"]
+			if self == "" && other == "" {
+				continue
+			}
+			n++
+			cons := fmt.Sprintf("type_equality_check branch #%d call #%d operands", i+1, j+1)
+			r.Check(swap(self) == other && self != other, "skeleton/equality-operands", cons, token.NoPos, "the second operand is the first one with SelfName replaced by OtherName",
+				fmt.Sprintf("%s: the recursive comparison receives SelfName=%s and OtherName=%s: the second is not the mirror image of the first — the emitted code compares a value with (part of) itself, and values that differ there compare equal", ts.file[recEquality.define], self, other))
+		}
+		if b.cond != nil && strings.Contains(b.cond.String(), "resolvesToMap") {
+			txt := tmplText(b.body)
+			r.Check(regexp.MustCompile(`,\s*\w+\s*:?=\s*[^\n]*⟦[^⟧]*OtherName[^⟧]*⟧[^\n]*\[key`).MatchString(txt) || strings.Contains(txt, "ok :="), "skeleton/equality-map-presence", "type_equality_check map branch tests key presence", token.NoPos, "the key is looked up on the other side with a presence test",
+				ts.file[recEquality.define]+": the map branch ranges over self's keys and compares self[k] with other[k] after a length test only: a key missing from `other` reads as the zero value, so {\"x\":0}.Equals({\"y\":5}) is true (and the reverse is false): Equals is not symmetric and differing values compare equal")
+		}
+	}
+	r.Count("operand pairs of recursive equality calls", n)
+	r.Floor("operand pairs of recursive equality calls", 4)
+}
+
+// inProgressRestored: a set that marks "currently being followed" (entries are inserted before a descent and deleted
+// afterwards) must be restored on every way out: a `defer delete(S, k)` placed right after the insertion, or a delete in
+// front of every later return. An entry left behind turns the marker into a memory: the next, unrelated question about the
+// same reference gets the answer reserved for cycles (here: "holds no constraint", "has no default").
+// files: module-relative path prefixes of the files this property is concerned with.
+func inProgressRestored(ctx *Ctx, r *Report, files []string, floor int) {
+	n := 0
+	ctx.AllFuncDecls(func(p *packages.Package, fd *ast.FuncDecl, obj *types.Func) {
+		if fd.Body == nil {
+			return
+		}
+		rel := ctx.Pos(fd.Pos())
+		match := false
+		for _, f := range files {
+			if strings.HasPrefix(rel, f) {
+				match = true
+			}
+		}
+		if !match {
+			return
+		}
+		info := p.TypesInfo
+		// function bodies: the declaration and each literal are separate return scopes
+		var scopes []*ast.BlockStmt
+		scopes = append(scopes, fd.Body)
+		ast.Inspect(fd.Body, func(m ast.Node) bool {
+			if fl, ok := m.(*ast.FuncLit); ok {
+				scopes = append(scopes, fl.Body)
+			}
+			return true
+		})
+		for _, body := range scopes {
+			inScope := func(visit func(ast.Node) bool) {
+				ast.Inspect(body, func(m ast.Node) bool {
+					if fl, ok := m.(*ast.FuncLit); ok && fl.Body != body {
+						return false
+					}
+					return visit(m)
+				})
+			}
+			// deletes and insertions per set
+			type ev struct {
+				pos      token.Pos
+				deferred bool
+			}
+			dels := map[string][]ev{}
+			ins := map[string][]token.Pos{}
+			inScope(func(m ast.Node) bool {
+				switch x := m.(type) {
+				case *ast.DeferStmt:
+					if id, ok := x.Call.Fun.(*ast.Ident); ok && id.Name == "delete" && len(x.Call.Args) == 2 {
+						dels[exprString(x.Call.Args[0])] = append(dels[exprString(x.Call.Args[0])], ev{x.Pos(), true})
+					}
+					return false
+				case *ast.ExprStmt:
+					if c, ok := x.X.(*ast.CallExpr); ok {
+						if id, ok := c.Fun.(*ast.Ident); ok && id.Name == "delete" && len(c.Args) == 2 {
+							dels[exprString(c.Args[0])] = append(dels[exprString(c.Args[0])], ev{x.Pos(), false})
+						}
+					}
+				case *ast.AssignStmt:
+					if len(x.Lhs) == 1 {
+						if ix, ok := x.Lhs[0].(*ast.IndexExpr); ok {
+							if _, isMap := info.TypeOf(ix.X).Underlying().(*types.Map); isMap {
+								ins[exprString(ix.X)] = append(ins[exprString(ix.X)], x.Pos())
+							}
+						}
+					}
+				}
+				return true
+			})
+			var sets []string
+			for s := range dels {
+				if len(ins[s]) > 0 {
+					sets = append(sets, s)
+				}
+			}
+			sort.Strings(sets)
+			for _, s := range sets {
+				n++
+				first := ins[s][0]
+				why := ""
+				hasDefer := false
+				for _, d := range dels[s] {
+					if d.deferred {
+						hasDefer = true
+						// no return between the insertion and the defer
+						inScope(func(m ast.Node) bool {
+							if rs, ok := m.(*ast.ReturnStmt); ok && rs.Pos() > first && rs.Pos() < d.pos {
+								why = "a return sits between the insertion and the deferred delete"
+							}
+							return true
+						})
+					}
+				}
+				if !hasDefer {
+					// every return after the insertion is directly preceded by a delete of the set
+					parents := parentMap(fd)
+					inScope(func(m ast.Node) bool {
+						rs, ok := m.(*ast.ReturnStmt)
+						if !ok || rs.Pos() < first {
+							return true
+						}
+						preceded := false
+						if blk, ok := parents[rs].(*ast.BlockStmt); ok {
+							for i, st := range blk.List {
+								if st == ast.Stmt(rs) && i > 0 {
+									if es, ok := blk.List[i-1].(*ast.ExprStmt); ok {
+										if c, ok := es.X.(*ast.CallExpr); ok {
+											if id, ok := c.Fun.(*ast.Ident); ok && id.Name == "delete" && len(c.Args) == 2 && exprString(c.Args[0]) == s {
+												preceded = true
+											}
+										}
+									}
+								}
+							}
+						}
+						if !preceded && why == "" {
+							why = fmt.Sprintf("the return at %s leaves the entry behind (the set is only cleaned on other ways out)", ctx.Pos(rs.Pos()))
+						}
+						return true
+					})
+				}
+				r.Check(why == "", "typestate/in-progress-restored", fmt.Sprintf("%s restores %s", ctx.FuncName(obj), s), first, "the entry is removed on every way out (deferred delete right after the insertion, or a delete in front of every return)",
+					fmt.Sprintf("%s marks a reference in %s while it follows it, and %s: the next question about the same reference — asked for another field — is answered as if it were a cycle", ctx.FuncName(obj), s, why))
+			}
+		}
+	})
+	r.Count("in-progress sets (inserted before a descent, deleted after)", n)
+	r.Floor("in-progress sets (inserted before a descent, deleted after)", floor)
 }
